@@ -360,6 +360,8 @@ class Check:
         self.trusted_extra = []
         self.level = "proof"
         self.extra_cov = {}
+        # replay files of runs against a scratch tree (VERIF_REPO set) must not collide with each other
+        self.run_tag = "" if str(REPO) == "/repo" else f"p{os.getpid()}_"
         kf = VERIF / "KNOWN_FINDINGS.json"
         self.known = json.loads(kf.read_text()) if kf.exists() else {"open": [], "fixed": []}
         # per-property fragments (same format), committed by hand like the main file
@@ -433,7 +435,7 @@ class Check:
         rdir.mkdir(exist_ok=True)
         nviol = 0
         for k, f in enumerate(new_fail):
-            path = rdir / f"{prop}_{self.tier}_{self.seed}_{k}.json"
+            path = rdir / f"{prop}_{self.tier}_{self.seed}_{self.run_tag}{k}.json"
             path.write_text(json.dumps({
                 "property": prop, "kind": "failing-input", "fingerprint": f["fingerprint"], "what": f["what"],
                 "case": f["case"], "detail": f["detail"], "occurrences": f["count"], "broken": broken,
@@ -442,7 +444,7 @@ class Check:
             lines.append(f"VIOLATION property={prop} replay={path}")
             nviol += 1
         if broken and not new_fail:
-            path = rdir / f"{prop}_{self.tier}_{self.seed}_broken.json"
+            path = rdir / f"{prop}_{self.tier}_{self.seed}_{self.run_tag}broken.json"
             path.write_text(json.dumps({
                 "property": prop, "kind": "no-failing-input-found", "broken": broken,
                 "searched": {"evaluations": self.evaluations, "distinct_nontrivial": self.distinct_nontrivial, "rule": self.rule},
